@@ -35,6 +35,10 @@ Proof. exact qsum_repeat. Qed.
 Theorem C10_score_concat : forall s1 s2, score_dur (s1 ++ s2) == score_dur s1 + score_dur s2.
 Proof. intros. unfold score_dur. rewrite map_app. apply qsum_app. Qed.
 
+(* score * k lasts k times the score (k = 0: the empty score, lasting 0) *)
+Theorem C10_score_repeat : forall s k, score_dur (repeat_list s k) == inject_Z (Z.of_nat k) * score_dur s.
+Proof. exact score_repeat_dur. Qed.
+
 (* a chord lasts as long as its longest part *)
 Theorem C10_chord_longest_part : forall parts, parts <> [] ->
   (forall p, In p parts -> mel_dur p <= chord_dur parts) /\ exists p, In p parts /\ chord_dur parts = mel_dur p.
